@@ -938,6 +938,9 @@ func proveIndexWith(pv *prover, x, idx ssa.Value, facts []Atom) (bool, string) {
 }
 
 func proveSliceWith(pv *prover, s *ssa.Slice, facts []Atom) (bool, string) {
+	if wholeCapSlice(s) {
+		return true, "0 <= cap(s) <= cap(s)"
+	}
 	ln := lenOf(s.X)
 	if arr, ok := deref(s.X.Type()).Underlying().(*types.Array); ok {
 		ln = lin{off: arr.Len()}
